@@ -40,6 +40,16 @@ func TestVerifFallbackCheckpointSave(t *testing.T) {
 		any := false
 		for _, vb := range ids {
 			o := &models.Offset{SnapshotMarker: &models.SnapshotMarker{StartSeqNo: r.Uint64() >> 1, EndSeqNo: r.Uint64()}, VbUUID: 1 + uint64ToUUID(r.Uint64()), SeqNo: r.Uint64()}
+			switch r.Intn(6) { // boundary shapes: a first snapshot starting at 0, a position at a snapshot bound, everything zero
+			case 0:
+				o.SnapshotMarker.StartSeqNo = 0
+			case 1:
+				o.SnapshotMarker.StartSeqNo, o.SeqNo = 0, o.SnapshotMarker.EndSeqNo/2
+			case 2:
+				o.SnapshotMarker.StartSeqNo, o.SnapshotMarker.EndSeqNo = o.SeqNo, o.SeqNo
+			case 3:
+				o.SnapshotMarker.StartSeqNo, o.SnapshotMarker.EndSeqNo, o.SeqNo = 0, 0, 0
+			}
 			s.offsets.Store(vb, o)
 			want[vb] = *o
 			if r.Intn(2) == 0 {
@@ -196,6 +206,9 @@ func TestVerifFallbackCheckpointLoad(t *testing.T) {
 		ahead := false
 		for _, vb := range ids {
 			high := uint64(r.Intn(1000))
+			if r.Intn(4) == 0 {
+				high = 0 // an empty vBucket
+			}
 			cl.seqNos[vb] = high
 			if md.exist && r.Intn(4) != 0 {
 				seq := uint64(0)
